@@ -190,6 +190,10 @@ def gen(seed, thorough=False):
                          'pos': rng.randint(0, 60), 'dt': rng.choice([0.005, 2.0, 45.0]),
                          'after_close': rng.random() < 0.4})
     knobs = {'pipe_capacity': rng.choice([16, 64, 512, 4096, 65536])}
+    if seed % 10 == 9:
+        # the system is out of threads when a worker wants to start the reader of its child's
+        # stderr: that layer's report is not delivered - an error for it, nothing silently lost
+        knobs['thread_start_fail'] = 1 + (seed // 10) % 3
     if 'j' not in opt and seed % 3 == 1:
         # resumed layers are relayed by the worker thread itself: one of its writes to the
         # parent's stdout fails (EAGAIN) - the child's report still counts
@@ -317,7 +321,8 @@ def run(spec, ctx):
             abnormal = bool(c['died']) or any(k[0] in ('kill_after', 'truncate_report')
                                               for k in c['channel'])
             name = 'subprocess for %s' % c['layer']
-            if not c['report_complete'] or (abnormal and name in res.runner['errors']):
+            if not c['report_complete'] or c.get('reader_failed') or \
+                    (abnormal and name in res.runner['errors']):
                 want_e.append(name)
             else:
                 want_ran += c['truth']['ran']
@@ -337,7 +342,8 @@ def run(spec, ctx):
         got_e_cmp = [n for n in got_e if not (n.startswith('Layer: ') and n.endswith('.setUp'))]
         nsetup_got = len(got_e) - len(got_e_cmp)
         kind = 'lookalike' if lookalike else (
-            'report-incomplete' if any(not c['report_complete'] for c in res.children)
+            'report-incomplete' if any(not c['report_complete'] or c.get('reader_failed')
+                                       for c in res.children)
             else ('spawn-failed' if nfailed_spawns else 'report-complete'))
         if got['ran'] != want_ran:
             viols.append(C.viol('C07/tests-run-count/' + kind,
